@@ -46,7 +46,7 @@ SpecialForms == {"def", "let", "quote", "quasiquote", "quasiquoteexpand", "defma
 
 \* builtins that need the evaluator or the state
 StateNames == {"trace!", "throw", "atom", "deref", "reset!", "swap!", "apply", "map", "eval",
-               "update", "raise!", "boom!", "boom-str!", "depth!"}
+               "update", "raise!", "boom!", "boom-str!", "depth!", "future-call"}
 BuiltinNames == PureNames \cup StateNames
 
 \* ---------------------------------------------------------------- scopes
@@ -252,7 +252,17 @@ CallBuiltin(name, a, st) ==
                         ELSE R("val", AtomV(Len(st.atoms) + 1), [st EXCEPT !.atoms = Append(@, a[1])])
     [] name = "deref" -> IF n # 1 THEN R("err", ErrV("builtin"), st)
                          ELSE IF a[1].t = "atom" THEN R("val", st.atoms[a[1].i], st)
+                         \* a future: its (write-once) outcome, a value or the error it ended with
+                         ELSE IF a[1].t = "fut" THEN R(a[1].s, a[1].xs[1], st)
                          ELSE R("err", ErrV("builtin"), st)
+    \* a future evaluates its body once, on another thread: the outcome is that of the body.  A body
+    \* with effects or that touches shared state is ordered nondeterministically: the oracle abstains.
+    [] name = "future-call" ->
+         IF n # 1 THEN R("err", ErrV("builtin"), st)
+         ELSE LET r == ApplySub(a[1], <<>>, st) IN
+           IF r.k \in {"div", "unspec"} THEN r
+           ELSE IF r.st.eff # st.eff \/ r.st.atoms # st.atoms \/ r.st.envs[1] # st.envs[1] THEN R("unspec", NilV, r.st)
+           ELSE R("val", Mk("fut", 0, r.k, <<r.v>>, NoMap), r.st)
     [] name = "reset!" -> IF n # 2 THEN R("err", ErrV("builtin"), st)
                           ELSE IF a[1].t # "atom" THEN R("err", ErrV("builtin"), st)
                           ELSE R("val", a[2], [st EXCEPT !.atoms[a[1].i] = a[2]])
@@ -379,6 +389,7 @@ PreludeText ==
   "(def every? (fn (pred xs) (cond (empty? xs) true (pred (first xs)) (every? pred (rest xs)) true false)))" \o
   "(def some (fn (pred xs) (if (empty? xs) nil (or (pred (first xs)) (some pred (rest xs))))))" \o
   "(defmacro and (fn (& xs) (cond (empty? xs) true (= 1 (count xs)) (first xs) true (let (condvar (gensym)) `(let (~condvar ~(first xs)) (if ~condvar (and ~@(rest xs)) ~condvar))))))" \o
+  "(defmacro future (fn [& body] `(future-call (fn [] ~@body))))" \o
   "(def memoize (fn [f] (let [mem (atom {})] (fn [& args] (let [key (str args)] (if (contains? @mem key) (get @mem key) (let [ret (apply f args)] (do (swap! mem assoc key ret) ret))))))))"
 
 PreludeForms == ReadAll(PreludeText)
@@ -411,6 +422,7 @@ Abstract(v, st) ==
   CASE v.t = "fn" -> Mk("fn", 0, v.s, <<>>, NoMap)
     [] v.t = "bfn" -> Mk("bfn", 0, "", <<>>, NoMap)
     [] v.t = "atom" -> Mk("atom", 0, "", <<Abstract(st.atoms[v.i], st)>>, NoMap)
+    [] v.t = "fut" -> Mk("fut", 0, "", <<>>, NoMap)
     [] v.t = "err" -> Mk("err", 0, v.s, <<>>, NoMap)
     [] v.t \in {"list", "vec"} -> Mk(v.t, 0, "", [k \in 1..Len(v.xs) |-> Abstract(v.xs[k], st)], NoMap)
     [] v.t = "map" -> Mk("map", 0, "", <<>>, [k \in DOMAIN v.m |-> Abstract(v.m[k], st)])
